@@ -108,7 +108,11 @@ def initial_data(fspec, grid):
     return data
 
 
-def build_eq(spec, gspec):
+def _double(x):
+    return 2 * x
+
+
+def build_eq(spec, gspec, user_funcs=None):
     import pde
 
     c = spec["cls"]
@@ -127,6 +131,9 @@ def build_eq(spec, gspec):
         kw = {}
         if spec.get("bc_ops"):
             kw["bc_ops"] = {k: build_bc(v, gspec) for k, v in spec["bc_ops"].items()}
+        if spec.get("user_funcs"):
+            # a user keeps ONE dictionary of helper functions and hands it to every equation he builds
+            kw["user_funcs"] = user_funcs if user_funcs is not None else {"double": _double}
         return pde.PDE(dict(spec["rhs"]), bc=bc("bc"), consts=dict(spec.get("consts") or {}), **kw)
     raise ValueError(c)
 
@@ -178,7 +185,9 @@ class Live:
         gs = self.h["grids"][gid]
         key = eid + ":" + gs["cls"] + ":" + "".join("p" if p else "n" for p in grid_periodic(gs))
         if key not in self.eqs:
-            self.eqs[key] = build_eq(self.h["eqs"][eid], self.h["grids"][gid])
+            if not hasattr(self, "user_funcs"):
+                self.user_funcs = {"double": _double}
+            self.eqs[key] = build_eq(self.h["eqs"][eid], self.h["grids"][gid], self.user_funcs)
         return self.eqs[key]
 
     def state(self, sid):
@@ -347,14 +356,15 @@ def perform(op, R: Live):
             es = h["eqs"][op["eq"]]
             sid = op["state"]
             nf = eq_num_fields(es)
+            any_rank = bool(es.get("any_rank"))
             if sid.startswith("f"):
                 fs = h["fields"][sid]
-                if nf != 1 or fs["rank"] != 0 or fs["dtype"] != "float":
+                if nf != 1 or (fs["rank"] != 0 and not any_rank) or fs["dtype"] != "float":
                     return SKIP
                 gid = fs["grid"]
             else:
                 c = R.coll(sid)
-                if c is None or nf != len(c) or any(m.rank != 0 for m in c) or np.iscomplexobj(c.data):
+                if c is None or nf != len(c) or (any(m.rank != 0 for m in c) and not any_rank) or np.iscomplexobj(c.data):
                     return SKIP
                 gid = R.colls_grid[sid]
             gspec = h["grids"][gid]
